@@ -1,5 +1,6 @@
 import OnetVerif.Model.C11Store
 import OnetVerif.Gen.C11
+import OnetVerif.Gen.C11S
 /-! Property C11 — the definitions regenerated from the Go source (`Gen/C11.lean`, written by `harness/cmd/go2lean` on
 every check run from `treestorage.go`): `IsRegistered`, `IsRequested`, `Get`, `Register`, `Unregister` on the field
 `trees` of `treeStorage` (a Go map; a tree pointer is read as an option of the tree's copy number).  The model of the
@@ -111,4 +112,146 @@ theorem c11_gen_Unregister_eq (ts : Gen.C11.treeStorage) (id : Nat) :
       | some c =>
         simp only [h, Option.getD_some, Option.isNone_some, Bool.false_eq_true, if_false]
         simp [slotOf, h, step1]
+
+/-! ### the rest of `treestorage.go` (module `Gen/C11S.lean`): `cancelDeletion`, `getAndRefresh`, `Set`, `Close`, and the
+two decisions of `Remove` — its closing test and the re-check of the removal routine once it holds the lock.
+
+The store as translated has three fields: `trees` (tree pointer ↦ option of a `Tree` reduced to its `ID`),
+`cancellations` (the channel of a scheduled removal ↦ its identity, an `Option Nat`: the generation number of the model,
+`none` = nil channel) and `closed`.  `viewS ts id g f` reads the model's per-id state `St1` off it (the generation
+counter `g` and the routines waiting for the lock `f` are not fields of the Go struct: they stand for the channel
+allocator and the goroutines).  The theorems say that each translated function IS the model's step on that view — for its
+own id and, with `…_others`, leaves every other id's view alone. -/
+
+def slotS (ts : Gen.C11S.treeStorage) (id : Nat) : Slot :=
+  match Gen.Rt.Map.find ts.trees id with
+  | none => .absent
+  | some none => .requested
+  | some (some t) => .present t.ID
+
+def armedS (ts : Gen.C11S.treeStorage) (id : Nat) : Option Nat := Gen.Rt.Map.get ts.cancellations id none
+
+def viewS (ts : Gen.C11S.treeStorage) (id g : Nat) (f : List Nat) : St1 :=
+  { slot := slotS ts id, armed := armedS ts id, gen := g, firing := f, closed := ts.closed }
+
+private theorem findg_cons {ν : Type} (l : List (Nat × ν)) (k : Nat) (v : ν) (j : Nat) :
+    Gen.Rt.Map.find (some ((k, v) :: l)) j = if j = k then some v else Gen.Rt.Map.find (some l) j := by
+  by_cases h : j = k
+  · subst h; simp [Gen.Rt.Map.find, List.lookup]
+  · have : (j == k) = false := by simp [h]
+    simp [Gen.Rt.Map.find, List.lookup, this, h]
+
+private theorem findg_erase {ν : Type} (m : Gen.Rt.Map Nat ν) (k j : Nat) :
+    Gen.Rt.Map.find (Gen.Rt.Map.erase m k) j = if j = k then none else Gen.Rt.Map.find m j := by
+  cases m with
+  | none => simp [Gen.Rt.Map.find, Gen.Rt.Map.erase]
+  | some l =>
+    simp only [Gen.Rt.Map.find, Gen.Rt.Map.erase, Option.map_some, Option.getD_some]
+    induction l with
+    | nil => simp [List.lookup]
+    | cons p rest ih =>
+      obtain ⟨k', v'⟩ := p
+      by_cases hk : k' = k
+      · subst hk
+        by_cases hj : j = k'
+        · subst hj; simpa [List.filter_cons, List.lookup] using ih
+        · have : (j == k') = false := by simp [hj]
+          simpa [List.filter_cons, List.lookup, this, hj] using ih
+      · have hk' : (k' == k) = false := by simp [hk]
+        by_cases hj : j = k'
+        · subst hj; simp [List.filter_cons, List.lookup, hk', hk]
+        · have : (j == k') = false := by simp [hj]
+          simp only [List.filter_cons, hk', Bool.not_false, if_true, List.lookup, this]
+          exact ih
+
+/-- `cancelDeletion` as translated: the removal of its id is no longer scheduled, whatever it was; nothing else changes -/
+theorem c11_gen_cancelDeletion_eq (ts : Gen.C11S.treeStorage) (id g : Nat) (f : List Nat) :
+    viewS (Gen.C11S.treeStorage_cancelDeletion ts id) id g f = step1 (viewS ts id g f) .refresh ∧
+    ∀ j, j ≠ id → viewS (Gen.C11S.treeStorage_cancelDeletion ts id) j g f = viewS ts j g f := by
+  unfold Gen.C11S.treeStorage_cancelDeletion
+  cases hc : Gen.Rt.Map.get ts.cancellations id none with
+  | none =>
+    refine ⟨?_, fun j _ => ?_⟩
+    · simp [viewS, step1, armedS, slotS, hc]
+    · simp
+  | some c =>
+    refine ⟨?_, fun j hj => ?_⟩
+    · simp [viewS, step1, armedS, slotS, Gen.Rt.Map.get, findg_erase]
+    · simp [viewS, armedS, slotS, Gen.Rt.Map.get, findg_erase, hj]
+
+/-- **`getAndRefresh` as translated returns the tree of a present slot** (the cancellation it performs first is
+`c11_gen_cancelDeletion_eq`; the function's result does not carry the updated store) -/
+theorem c11_gen_getAndRefresh_eq (ts : Gen.C11S.treeStorage) (id : Nat) :
+    (Gen.C11S.treeStorage_getAndRefresh ts id).map (·.ID) = (match slotS ts id with | .present c => some c | _ => none) := by
+  have htr : (Gen.C11S.treeStorage_cancelDeletion ts id).trees = ts.trees := by
+    unfold Gen.C11S.treeStorage_cancelDeletion
+    cases Gen.Rt.Map.get ts.cancellations id none <;> simp
+  unfold Gen.C11S.treeStorage_getAndRefresh
+  simp only [htr, Gen.Rt.Map.get, slotS]
+  rcases Option.eq_none_or_eq_some (Gen.Rt.Map.find ts.trees id) with h | ⟨v, h⟩
+  · simp [h]
+  · cases v <;> simp [h]
+
+/-- **`Set` as translated is the model's `set` step** on the view of the tree's id (on a store made by
+`newTreeStorage`: the map is not nil), and changes no other id's view; a nil tree is the panic outcome -/
+theorem c11_gen_Set_eq (ts : Gen.C11S.treeStorage) (k g : Nat) (f : List Nat) (hm : ts.trees.isSome) :
+    ∃ ts', Gen.C11S.treeStorage_Set ts (some { ID := k }) = some ts' ∧
+      viewS ts' k g f = step1 (viewS ts k g f) (.set k) ∧ ∀ j, j ≠ k → viewS ts' j g f = viewS ts j g f := by
+  have hcd := c11_gen_cancelDeletion_eq ts k g f
+  have htr : (Gen.C11S.treeStorage_cancelDeletion ts k).trees = ts.trees := by
+    unfold Gen.C11S.treeStorage_cancelDeletion
+    cases Gen.Rt.Map.get ts.cancellations k none <;> simp
+  have ha : Gen.Rt.Map.get (Gen.C11S.treeStorage_cancelDeletion ts k).cancellations k none = none := by
+    have := congrArg St1.armed hcd.1; simpa [viewS, step1, armedS] using this
+  have hcl : (Gen.C11S.treeStorage_cancelDeletion ts k).closed = ts.closed := by
+    have := congrArg St1.closed hcd.1; simpa [viewS, step1] using this
+  have hao : ∀ j, j ≠ k → Gen.Rt.Map.get (Gen.C11S.treeStorage_cancelDeletion ts k).cancellations j none =
+      Gen.Rt.Map.get ts.cancellations j none := by
+    intro j hj; have := congrArg St1.armed (hcd.2 j hj); simpa [viewS, armedS] using this
+  unfold Gen.C11S.treeStorage_Set
+  simp only [htr]
+  cases htl : ts.trees with
+  | none => simp [htl] at hm
+  | some l =>
+    simp only [Gen.Rt.Map.insert?]
+    refine ⟨_, rfl, ?_, fun j hj => ?_⟩
+    · simp [viewS, step1, slotS, armedS, findg_cons, ha, hcl]
+    · simp [viewS, slotS, armedS, findg_cons, hj, htl, hao j hj, hcl]
+
+theorem c11_gen_Set_nil_panics (ts : Gen.C11S.treeStorage) : Gen.C11S.treeStorage_Set ts none = none := rfl
+
+/-- **`Close` as translated is the model's `close` step on every id's view**: the flag is set, no removal stays
+scheduled, no tree is touched -/
+theorem c11_gen_Close_eq (ts : Gen.C11S.treeStorage) (j g : Nat) (f : List Nat) :
+    viewS (Gen.C11S.treeStorage_Close ts) j g f = step1 (viewS ts j g f) .close := by
+  unfold Gen.C11S.treeStorage_Close
+  cases hc : ts.cancellations <;>
+    simp [viewS, step1, armedS, slotS, Gen.Rt.Map.get, Gen.Rt.Map.find, Gen.Rt.Map.clear, hc]
+
+/-- **the two decisions of `Remove`**: its first test is the model's `closed` test; the re-check of the removal routine
+under the lock (`ts.cancellations[id] == c`, /repo 2e39a89) is the model's `armed = some g` — the routine of generation
+`g` deletes exactly when its own removal is still the scheduled one -/
+theorem c11_gen_Remove_decisions (ts : Gen.C11S.treeStorage) (id g g' : Nat) (f : List Nat) :
+    Gen.C11S.Remove_closed ts = (viewS ts id g f).closed ∧
+    (Gen.C11S.Remove_reap_deletes ts id (some g') = true ↔ (viewS ts id g f).armed = some g') := by
+  refine ⟨by simp [Gen.C11S.Remove_closed, viewS], ?_⟩
+  simp [Gen.C11S.Remove_reap_deletes, viewS, armedS]
+
+/-- so the model's `reap` is the routine as translated: given that the timer of generation `g'` has fired, the step
+deletes the tree and the registration iff the translated re-check says so -/
+theorem c11_gen_reap_uses_translated_recheck (ts : Gen.C11S.treeStorage) (id g g' : Nat) (f : List Nat) (hf : g' ∈ f) :
+    step1 (viewS ts id g f) (.reap g') =
+      (if Gen.C11S.Remove_reap_deletes ts id (some g') then
+        { viewS ts id g f with firing := f.filter (· != g'), slot := .absent, armed := none }
+       else { viewS ts id g f with firing := f.filter (· != g') }) := by
+  have h := (c11_gen_Remove_decisions ts id g g' f).2
+  by_cases hd : Gen.C11S.Remove_reap_deletes ts id (some g') = true
+  · have ha := h.mp hd
+    simp only [hd, if_true]
+    simp only [viewS] at ha ⊢
+    simp [step1, hf, ha]
+  · have ha : ¬ (viewS ts id g f).armed = some g' := fun e => hd (h.mpr e)
+    simp only [hd]
+    simp only [viewS] at ha ⊢
+    simp [step1, hf, ha]
 end C11.Store
